@@ -84,6 +84,18 @@ func ParseMBAPHeader(data []byte) (MBAPHeader, error) {
 	}, nil
 }
 
+// newTCPRequestTooShortError creates parse error for TCP request that is (according to its header) complete but too
+// short to contain all the fields that request with given function code must have.
+func newTCPRequestTooShortError(header MBAPHeader, data []byte, functionCode uint8) *ErrorParseTCP {
+	tmpErr := NewErrorParseTCP(ErrIllegalDataValue, "received data length too short to be valid packet")
+	tmpErr.Packet.TransactionID = header.TransactionID
+	if len(data) > 6 {
+		tmpErr.Packet.UnitID = data[6]
+	}
+	tmpErr.Packet.Function = functionCode
+	return tmpErr
+}
+
 // LooksLikeType is enum for classifying what given slice of bytes could potentially could be parsed to
 type LooksLikeType int
 
